@@ -165,6 +165,10 @@ impl ValueRef {
         match value {
             Value::Null => ValueRef::Null,
             Value::Int(number) => ValueRef::Int(number),
+            // The file format has a single representation for a null cell and
+            // an empty string (a zero string reference); in particular the
+            // string pool cannot hold a live entry of length zero.
+            Value::Str(string) if string.is_empty() => ValueRef::Null,
             Value::Str(string) => ValueRef::Str(string_pool.incref(string)),
         }
     }
